@@ -76,6 +76,8 @@ def main(ctx):
         jobs.append({"kind": "burst", "auth": auth, "mode": 0, "depth": 2, "tier": "quick"})
     jobs.append({"kind": "rejoin"})
     jobs.append({"kind": "extra"})
+    for tk in ("ws", "rs"):
+        jobs.append({"kind": "realtransport", "tkind": tk})
     for fw in ("tx", "aio"):
         ctx.pmap({"fw": fw, "nvx": "1"}, "props.c06:job", jobs, chunksize=4)
     c = ctx.counters
@@ -1055,11 +1057,110 @@ def _job_extra(a):
             "samples": [{"kind": "extra", "cases": n}]}
 
 
+REAL_ENDINGS = ["peer-reset", "peer-fin", "local-disconnect", "local-leave+reply", "local-leave+loss",
+                "router-goodbye", "illegal-welcome", "illegal-abort", "garbage-frame", "handler-raises-then-loss"]
+
+
+def _job_realtransport(a):
+    """the same life-cycle obligations with the real session sitting on a REAL transport (WebSocket /
+    RawSocket of the worker's framework, in-memory TCP, scripted router at octet level): every way a
+    joined session with one call outstanding can end.  join, leave and disconnect fire exactly once,
+    in that order; the outstanding call is failed; nothing escapes to the framework."""
+    import collections
+    import txaio
+    from mc import worker
+    from harness import wamp_l2 as L
+    from autobahn.wamp import message as M, role as ROLE
+    env = worker.ENV
+    tk = a["tkind"]
+    viol, seen = [], {}
+    stats = collections.Counter()
+
+    def bad(clause, ending, detail):
+        sig = "C06|real-transport-%s|%s|%s" % (clause, ending, tk)
+        seen[sig] = seen.get(sig, 0) + 1
+        if seen[sig] <= 1:
+            viol.append({"sig": sig, "desc": "[fw=%s %s] session ends by %s: %s" % (env.get("fw"), tk, ending, detail),
+                         "replay": {"env": {"fw": env.get("fw"), "nvx": "1"}, "func": "props.c06:job", "arg": a}})
+    for sid in ("json", "cbor"):
+        for ending in REAL_ENDINGS:
+            for fbd in ((False, True) if tk == "ws" else (None,)):
+                events = []
+                box = []
+
+                def on_join(session, details, _b=box, _ending=ending):
+                    f = session.call("com.pending.proc", 1)
+                    txaio.add_callbacks(f, lambda r: _b.append(("ok", r)), lambda e: _b.append(("err", e)))
+                    if _ending == "handler-raises-then-loss":
+                        def handler(*x, **y):
+                            raise RuntimeError("handler fails")
+                        session.subscribe(handler, "com.t")
+                ep, rt, sess = L.open_session_endpoint(tk, sid, {"on_join": on_join},
+                                                       ws_opts={"failByDrop": fbd} if tk == "ws" else None)
+                for ev in ("join", "leave", "disconnect"):
+                    sess.on(ev, (lambda name: (lambda *x, **y: events.append(name)))(ev))
+                rt.read()
+                rt.send(M.Welcome(4711, {"broker": ROLE.RoleBrokerFeatures(), "dealer": ROLE.RoleDealerFeatures()}))
+                rt.read()
+                stats["real_transport_cases"] += 1
+                if events != ["join"] or box:
+                    bad("setup", ending, "after WELCOME: listeners %r, pending call %r" % (events, box))
+                    continue
+                if ending == "peer-reset":
+                    ep.conn.peer_drop(False)
+                elif ending == "peer-fin":
+                    ep.conn.peer_drop(True)
+                elif ending == "local-disconnect":
+                    sess.disconnect()
+                elif ending == "local-leave+reply":
+                    sess.leave()
+                    ep.settle()
+                    rt.read()
+                    rt.send(M.Goodbye("wamp.close.goodbye_and_out"))
+                elif ending == "local-leave+loss":
+                    sess.leave()
+                    ep.settle()
+                    ep.conn.peer_drop(False)
+                elif ending == "router-goodbye":
+                    rt.send(M.Goodbye("wamp.close.system_shutdown", "bye"))
+                elif ending == "illegal-welcome":
+                    rt.send(M.Welcome(4712, {"broker": ROLE.RoleBrokerFeatures()}))
+                elif ending == "illegal-abort":
+                    rt.send(M.Abort("wamp.error.no_such_realm"))
+                elif ending == "garbage-frame":
+                    ep.feed(ep.peer_frame(b"\xff\x00 not a wamp message", L.is_binary(sid)))
+                elif ending == "handler-raises-then-loss":
+                    # SUBSCRIBED, then an EVENT whose handler raises: a user error, the session lives on
+                    subs = [m for m in rt.rx if m[0] == 32]
+                    if subs:
+                        rt.send(M.Subscribed(subs[-1][1], 55), M.Event(55, 1, args=[1]))
+                    ep.conn.peer_drop(False)
+                ep.settle()
+                rt.read()
+                for _ in range(4):
+                    ep.finish(peer_close=True)
+                    ep.settle()
+                d = "listeners %r, outstanding call %s, transport calls %r, lost=%s, escapes %r" % (
+                    events, [(k, type(v).__name__) for k, v in box], list(ep.t.calls), ep.conn.lost, ep.escapes()[:1])
+                if events != ["join", "leave", "disconnect"]:
+                    bad("callbacks", ending, d)
+                if len(box) != 1 or box[0][0] != "err":
+                    bad("pending-not-failed", ending, d)
+                if ep.escapes():
+                    bad("escape", ending, d)
+                if sess._session_id is not None:
+                    bad("session-id-kept", ending, d)
+    return {"evals": stats["real_transport_cases"], "viol": viol, "stats": dict(stats),
+            "samples": [{"kind": "realtransport", "transport": tk, "endings": len(REAL_ENDINGS)}]}
+
+
 def job(a):
     if a.get("kind") == "rejoin":
         return _job_rejoin(a)
     if a.get("kind") == "extra":
         return _job_extra(a)
+    if a.get("kind") == "realtransport":
+        return _job_realtransport(a)
     import collections
     from mc import worker
     from mc.core import explore
